@@ -217,6 +217,26 @@ class FilterFn:
         return 'FilterFn(%s,%s,%s)' % (self.stage, self.mod, self.rem)
 
 
+FALSY = {'none': None, 'zero': 0, 'empty': '', 'emptylist': [], 'emptydict': {},
+         'false': False}
+
+
+class FalsyFn:
+    """Replaces selected examples by a falsy value (None, 0, '', [], {}, False):
+    legal examples that sentinel-style code tends to mistake for 'no value'."""
+
+    def __init__(self, stage, mod, rem, val):
+        self.stage, self.mod, self.rem, self.val = stage, mod, rem, val
+
+    def __call__(self, x):
+        ctx, ids = _enter(self.stage, x)
+        ctx.event('ret', self.stage, ids)
+        if ids and ids[0] % self.mod == self.rem:
+            v = FALSY[self.val]
+            return type(v)() if isinstance(v, (list, dict)) else v
+        return x
+
+
 class KeyFn:
     """sort / group key: a function of the embedded source ids only."""
 
@@ -314,12 +334,25 @@ def _slice_arg(sl):
     return list(sl)
 
 
+_SHARED_RNG = [None]
+
+
+def _rng(st):
+    """generator for a random stage: its own seeded RandomState, or the one
+    generator object shared by all random stages of this build"""
+    if _SHARED_RNG[0] is not None:
+        return _SHARED_RNG[0]
+    return np.random.RandomState(st['seed'])
+
+
 def apply_stage(ds, st, parallel=True):
     op = st['op']
     if op == 'map':
         return ds.map(MapFn(st['id']))
     if op == 'fresh':
         return ds.map(FreshFn(st['id']))
+    if op == 'falsy':
+        return ds.map(FalsyFn(st['id'], st['mod'], st['rem'], st['val']))
     if op == 'slice':
         return ds[_slice_arg(st['sl'])]
     if op == 'batch':
@@ -334,12 +367,11 @@ def apply_stage(ds, st, parallel=True):
     if op == 'items':
         return ds.items()
     if op == 'shuffle':
-        return ds.shuffle(False, rng=np.random.RandomState(st['seed']))
+        return ds.shuffle(False, rng=_rng(st))
     if op == 'reshuffle':
-        return ds.shuffle(True, rng=np.random.RandomState(st['seed']))
+        return ds.shuffle(True, rng=_rng(st))
     if op == 'local_shuffle':
-        return ds.shuffle(True, rng=np.random.RandomState(st['seed']),
-                          buffer_size=st['bs'])
+        return ds.shuffle(True, rng=_rng(st), buffer_size=st['bs'])
     if op == 'apply':
         return ds.apply(ApplyShuffle(st['seed']), lazy=True)
     if op == 'sort':
@@ -382,9 +414,15 @@ def apply_stage(ds, st, parallel=True):
 
 
 def build(desc, parallel=True):
-    ds = make_source(desc['source'])
-    for st in desc['stages']:
-        ds = apply_stage(ds, st, parallel=parallel)
+    _SHARED_RNG[0] = None
+    if desc.get('shared_rng') is not None:
+        _SHARED_RNG[0] = np.random.RandomState(desc['shared_rng'])
+    try:
+        ds = make_source(desc['source'])
+        for st in desc['stages']:
+            ds = apply_stage(ds, st, parallel=parallel)
+    finally:
+        _SHARED_RNG[0] = None
     return ds
 
 
